@@ -37,7 +37,7 @@ FILES = {
     "fastavro/io/parser.py": ["C15"],
     "fastavro/io/symbols.py": ["C15", "C17"],
     "fastavro/utils.py": ["C20"],
-    "fastavro/_schema_common.py": ["C14"],
+    "fastavro/_schema_common.py": ["C14", "C01", "C08", "C10"],
     "fastavro/_write_common.py": ["C07", "C04"],
     "fastavro/repository/flat_dict.py": ["C19"],
 }
